@@ -213,6 +213,11 @@ def enumerate_cases(tier, seed):
                         # single-readout and the time-domain path slice them with the target range) - see ASSUMPTIONS
                         cases.append({"fam": "fit", "func": func, "ntargets": ntargets, "weights": weights, "dims": dims,
                                       "range": rk, "rtype": ("pixel", "signal")[(ntargets + dims + len(rk)) % 2]})
+    # input arguments: the same value for two consecutive targets
+    for func in FUNCS:
+        for ntargets in (2, 3):
+            cases.append({"fam": "fit", "func": func, "ntargets": ntargets, "weights": "none", "dims": 2, "range": "full",
+                          "rtype": "pixel", "bdup": True})
     # histories: a second calibration in the same process, target / weight files REWRITTEN under the same names
     for dims in (2, 3):
         for weights in ("none", "file"):
@@ -235,6 +240,12 @@ def enumerate_cases(tier, seed):
                                           "npar": npar, "r3": "6+4"})
     cases.append({"fam": "run", "algo": "sade", "pygmo_seed": 1, "islands": 1, "ntargets": 1, "dims": 3, "func": FUNCS[0],
                   "sub": False, "npar": 2, "r3": "4+4"})
+    # non-elitist settings: the local optimiser starts from the worst / a random individual (the population's best may
+    # get worse from one evolution to the next; the reported champion may not)
+    for sel in ("worst", "random"):
+        for ps in (1, 2):
+            cases.append({"fam": "run", "algo": "nlopt", "pygmo_seed": ps, "islands": 1 + ps % 2, "ntargets": 1, "dims": 2,
+                          "func": FUNCS[0], "sub": False, "npar": 2, "r3": "6+4", "nlopt_selection": sel, "evolutions": 5})
     for dims in (2, 3):         # result and target regions of equal extent at different positions
         cases.append({"fam": "run", "algo": "sade", "pygmo_seed": 2, "islands": 2, "ntargets": 2, "dims": dims,
                       "func": FUNCS[1], "sub": "shifted", "npar": 2, "r3": "6+4"})
@@ -259,9 +270,9 @@ def expected_size(tier, seed):
     over = [(a, b) for a, b in subranges(ROWS + 2) if b > ROWS or thorough]
     rsize = sum(1 if a == 0 else 2 for a, b in over)
     time = sum((1 + nsub(3) + 2) * (1 + nsub(nf) + 1) for nf in ((3, 2, 4) if thorough else (3,)))
-    fit = len(FUNCS) * 3 * ((3 + 4) + (3 + 4) + (3 + 4))
+    fit = len(FUNCS) * 3 * ((3 + 4) + (3 + 4) + (3 + 4)) + len(FUNCS) * 2
     combos = 3 * 2 * 2 * 2 * 2
-    runs = (combos * 2 if thorough else combos // 2 + combos // 4) + 1 + 2
+    runs = (combos * 2 if thorough else combos // 2 + combos // 4) + 1 + 2 + 4
     nrange = rows + cols + tsize + rsize + time
     return nrange + (nrange if thorough else (nrange + 1) // 2) + fit + runs + 8 + 8
 
@@ -293,6 +304,8 @@ def build(td, seed, *, res, tgt, tshape, times=None, func="sum_of_abs_residuals"
         elif weights == "scalar":
             wvals.append(1.5 + i + 0.25 * (seed % 3))
     bvals = [2.0 * i + 0.5 for i in range(ntargets)]
+    if calkw.pop("bdup", False) and ntargets > 1:
+        bvals[1] = bvals[0]            # two consecutive targets with the SAME input value (other than the pipeline's own)
     det = mk.detector("ccd", ROWS, COLS)
     pipe = mk.pipeline({"charge_collection": [("props.c11_calib_fitness.probe", "pm",
                                                {"a": 1.0, "b": 0.0, "c": 0.0, "noise": calkw.pop("noise", 0.0)})]})
@@ -311,6 +324,9 @@ def build(td, seed, *, res, tgt, tshape, times=None, func="sum_of_abs_residuals"
     fargs = {"free_parameters": 1} if func == "reduced_chi_squared" else None
     gen = kw.pop("generations", 1)
     algokw = {"maxeval": 10} if algo == "nlopt" else {}
+    if kw.get("nlopt_selection"):
+        algokw.update(nlopt_selection=kw.pop("nlopt_selection"), replacement="best", maxeval=3)
+    kw.pop("nlopt_selection", None)
     cal = Calibration(
         target_data_path=tfiles,
         fitness_function=FitnessFunction(func=f"pyxel.calibration.fitness.{func}", arguments=fargs),
@@ -457,12 +473,12 @@ def _run_problem(case, seed, td):
             cal.target_fit_range = tuple(tgt)
         else:
             cal, proc, info = build(td, seed, res=res, tgt=tgt, tshape=tshape, times=times, func=func, ntargets=ntargets,
-                                    weights=weights, rtype=rtype, pygmo_seed=1)
+                                    weights=weights, rtype=rtype, pygmo_seed=1, bdup=bool(case.get("bdup")))
         problem, _ = calib.real_problem(cal, proc)
     except Exception as e:  # noqa: BLE001
         exc = e
     calls_at_construction = CALLS[0]
-    sig_base = [fam, decision, why, case.get("via")]
+    sig_base = [fam, decision, why, case.get("via"), case.get("bdup")]
     if decision == "either":
         return {"viol": viol, "sig": cfgx.sig(sig_base), "nontrivial": False, "n": 1, "outcome": {"decision": "either"}}
     if decision == "reject":
@@ -623,7 +639,7 @@ def _run_optim(case, seed, td):
         res = [0, 3, *res]
     npar = int(case["npar"])
     rtype = "pixel" if (isl + ntargets) % 2 else "signal"
-    nevo = 3
+    nevo = int(case.get("evolutions", 3))
     label = (f"run {algo} pygmo_seed={pygmo_seed} islands={isl} targets={ntargets} calibrated parameters={npar} dims={dims} "
              f"{func} result_type={rtype} result range {res} target range {tgt}")
     viol = []
@@ -633,7 +649,8 @@ def _run_optim(case, seed, td):
         key.update(extra)
         viol.append((key, f"{label}: {what}"))
 
-    sig = cfgx.sig(["run", algo, case["pygmo_seed"], isl, ntargets, dims, func, npar, case["r3"], case["sub"]])
+    sig = cfgx.sig(["run", algo, case["pygmo_seed"], isl, ntargets, dims, func, npar, case["r3"], case["sub"],
+                    case.get("nlopt_selection")])
     try:        # a valid configuration must be accepted
         cal, proc, info = build(td, seed, res=res, tgt=tgt, tshape=tshape, times=times, func=func, ntargets=ntargets,
                                 weights="none", rtype=rtype, algo=algo, npar=npar, pygmo_seed=pygmo_seed)
@@ -645,7 +662,8 @@ def _run_optim(case, seed, td):
     try:
         cal, proc, info = build(td, seed, res=res, tgt=tgt, tshape=tshape, times=times, func=func, ntargets=ntargets,
                                 weights="none", rtype=rtype, algo=algo, npar=npar, pygmo_seed=pygmo_seed, num_islands=isl,
-                                num_evolutions=nevo, num_best_decisions=2, generations=2 if algo != "nlopt" else 1)
+                                num_evolutions=nevo, num_best_decisions=2, generations=2 if algo != "nlopt" else 1,
+                                nlopt_selection=case.get("nlopt_selection"))
         result = pyxel.run_mode(cal, proc.detector, proc.pipeline, with_inherited_coords=True)
         fit = np.asarray(result["/champion/fitness"].transpose("island", "evolution").values, dtype=float)
         par = np.asarray(result["/champion/parameters"].transpose("island", "evolution", "param_id").values, dtype=float)
